@@ -37,18 +37,26 @@ class Recorder(object):
             setattr(rl, n, self._wrap_fact(n, getattr(rl, n)))
         for n in self.PRFS:
             setattr(mt, n, self._wrap_prf(n, getattr(mt, n)))
-        o = rl.HKDF_expand_label
+        import tlslite.tlsrecordlayer as trl
+        import tlslite.handshakehelpers as hhp
+        self.paused = 0
+        # every hash name handed to the key-schedule helpers, in every module that does TLS 1.3 derivations
+        for mod in (rl, tc, trl, hhp):
+            for n in ('HKDF_expand_label', 'derive_secret', 'secureHMAC'):
+                if hasattr(mod, n):
+                    setattr(mod, n, self._wrap_hash(getattr(mod, n)))
+        # ticket encryption keys depend on settings.ticketCipher, not on the suite: not recorded
+        dk = tc.TLSConnection.__dict__.get('_derive_key_iv')
+        if dk is not None:
+            f = dk.__func__ if isinstance(dk, staticmethod) else dk
 
-        def hk(secret, label, hv, length, algo):
-            self.hkdf.append(str(algo))
-            return o(secret, label, hv, length, algo)
-        rl.HKDF_expand_label = hk
-        d = tc.derive_secret
-
-        def ds(secret, label, hh, algo):
-            self.hkdf.append(str(algo))
-            return d(secret, label, hh, algo)
-        tc.derive_secret = ds
+            def paused(*a, **kw):
+                self.paused += 1
+                try:
+                    return f(*a, **kw)
+                finally:
+                    self.paused -= 1
+            tc.TLSConnection._derive_key_iv = staticmethod(paused)
 
     def _wrap_fact(self, name, f):
         def w(key, *a, **kw):
@@ -57,6 +65,18 @@ class Recorder(object):
                 iv = len(a[0]) if a else -1
             self.fact.append((name, len(key), iv))
             return f(key, *a, **kw)
+        return w
+
+    def _wrap_hash(self, f):
+        if getattr(f, '_c20', False):
+            return f
+
+        def w(*a, **kw):
+            if not self.paused:
+                algo = kw.get('algorithm', a[-1] if a else None)
+                self.hkdf.append(str(algo))
+            return f(*a, **kw)
+        w._c20 = True
         return w
 
     def _wrap_prf(self, name, f):
@@ -187,6 +207,7 @@ def wire_view(c2s, s2c):
     if 43 in exts and len(exts[43]) == 2:
         minor = exts[43][1]
     w['sh_ver'] = minor
+    w['sh_exts'] = sorted(exts)
     ver = (3, minor)
     if minor == 4:
         w['wire_kx'] = 'tls13' if 51 in exts else 'tls13-no-keyshare'
@@ -235,6 +256,154 @@ def wire_view(c2s, s2c):
     return w
 
 
+def hkdf_label(secret, label, ctx, length, hname):
+    """RFC 8446 7.1 HKDF-Expand-Label, stdlib only"""
+    import hashlib
+    import hmac
+    full = b"tls13 " + label
+    info = bytes([length >> 8, length & 0xff, len(full)]) + full + bytes([len(ctx)]) + ctx
+    out, block, c = b"", b"", 1
+    while len(out) < length:
+        block = hmac.new(bytes(secret), block + info + bytes([c]), getattr(hashlib, hname)).digest()
+        out += block
+        c += 1
+    return out[:length]
+
+
+def step_hash(prev, new):
+    """which hash turns traffic secret `prev` into `new` by "traffic upd" (None: neither)"""
+    hits = [h for h, n in (('sha256', 32), ('sha384', 48)) if len(new) == n and hkdf_label(prev, b"traffic upd", b"", n, h) == bytes(new)]
+    return hits[0] if len(hits) == 1 else None
+
+
+def open_record(m, secret, hname, header, body, seq=0):
+    """decrypt one TLS 1.3 record with keys derived here from `secret` under `hname`; -> plaintext or None"""
+    from tlslite.utils import cipherfactory as cf
+    mk = {'AES_GCM': cf.createAESGCM, 'AES_CCM': cf.createAESCCM, 'AES_CCM_8': cf.createAESCCM_8,
+          'CHACHA20': cf.createCHACHA20}[m['cipher']]
+    key = hkdf_label(secret, b"key", b"", m['keylen'], hname)
+    iv = hkdf_label(secret, b"iv", b"", 12, hname)
+    nonce = bytearray(iv)
+    for i, b in enumerate(seq.to_bytes(8, 'big')):
+        nonce[4 + i] ^= b
+    try:
+        return mk(bytearray(key), ['python']).open(nonce, bytearray(body), bytearray(header))
+    except Exception:  # noqa
+        return None
+
+
+def raw_records(chunks):
+    buf = b''.join(chunks)
+    out, p = [], 0
+    while p + 5 <= len(buf):
+        ln = int.from_bytes(buf[p + 3:p + 5], 'big')
+        out.append((bytes(buf[p:p + 5]), bytes(buf[p + 5:p + 5 + ln])))
+        p += 5 + ln
+    return out
+
+
+def exporter_view(pair, ver):
+    """both ends export the same bytes; which hash produced them (recomputed here)"""
+    import hashlib
+    import hmac
+    from tlslite import mathtls
+    lab = bytearray(b"EXPORTER-c20")
+    a = bytes(pair.client.keyingMaterialExporter(lab, 40))
+    b = bytes(pair.server.keyingMaterialExporter(lab, 40))
+    sess = pair.client.session
+    kinds = []
+    if ver == (3, 4):
+        for h in ('sha256', 'sha384'):
+            e0 = getattr(hashlib, h)(b"").digest()
+            if len(sess.exporterMasterSecret) != len(e0):
+                continue
+            sec = hkdf_label(sess.exporterMasterSecret, bytes(lab), e0, len(e0), h)
+            if hkdf_label(sec, b"exporter", e0, 40, h) == a:
+                kinds.append(h)
+    else:
+        seed = pair.client._clientRandom + pair.client._serverRandom
+        for k, f in (('md5sha1', mathtls.PRF), ('sha256', mathtls.PRF_1_2), ('sha384', mathtls.PRF_1_2_SHA384)):
+            if bytes(f(sess.masterSecret, lab, seed, 40)) == a:
+                kinds.append(k)
+    return {'same': a == b, 'kind': kinds[0] if len(kinds) == 1 else ''}
+
+
+def tls13_post(pair, m, data, out, skw, cs, ckw):
+    """after a TLS 1.3 handshake: KeyUpdate each way, independent HKDF chain, wire-level decryption of the
+    first record under the new client keys, resumption with the ticket, post-handshake authentication"""
+    import loop
+    from tlslite.constants import KeyUpdateMessageType
+    h = iana.prf_at(m, (3, 4))
+    sc, ss = pair.client.session, pair.server.session
+    cl, sr = [bytes(sc.cl_app_secret)], [bytes(sc.sr_app_secret)]
+    post = {'_sid': out['sid'], 'agree0': bytes(ss.cl_app_secret) == cl[0] and bytes(ss.sr_app_secret) == sr[0], 'len0': [len(cl[0]), len(sr[0])]}
+    flows = True
+    for who in ('client', 'server'):
+        a, b = (pair.client, pair.server) if who == 'client' else (pair.server, pair.client)
+        loop.drive([a.send_keyupdate_request(KeyUpdateMessageType.update_requested)])
+        n0 = len(raw_records(pair.csock.sent_log))
+        w1 = pair.transfer(a, b, data)
+        w2 = pair.transfer(b, a, data)
+        flows = flows and w1[2] == data and w2[2] == data
+        cl.append(bytes(sc.cl_app_secret))
+        sr.append(bytes(sc.sr_app_secret))
+        post['agree_' + who] = bytes(ss.cl_app_secret) == cl[-1] and bytes(ss.sr_app_secret) == sr[-1]
+        if who == 'server':
+            # the client answered with its own KeyUpdate (old keys), so its next record is the first under the keys
+            # derived from cl[-1]: open it with keys derived here, under the hash the NAME denotes, from cl[0]
+            want = cl[0]
+            for _ in range(2):
+                want = hkdf_label(want, b"traffic upd", b"", len(cl[0]), h)
+            recs = [r for r in raw_records(pair.csock.sent_log)[n0:] if r[0][0] == 23]
+            pt = open_record(m, want, h, recs[-1][0], recs[-1][1]) if recs else None
+            post['wire_open'] = bool(pt is not None and bytes(pt[:-1]) == data and pt[-1] == 23)
+    post['flows'] = bool(flows)
+    post['steps'] = [step_hash(cl[0], cl[1]) or '', step_hash(cl[1], cl[2]) or '', step_hash(sr[0], sr[1]) or '',
+                     step_hash(sr[1], sr[2]) or '']
+    post['lens'] = [len(x) for x in cl + sr]
+    # post-handshake authentication (client certificate was configured): Finished under the suite's hash
+    try:
+        before = pair.server.session.clientCertChain
+        loop.drive([pair.server.request_post_handshake_auth(skw['settings'])])
+        w1 = pair.transfer(pair.server, pair.client, data)      # client reads the request, answers
+        w2 = pair.transfer(pair.client, pair.server, data)      # server reads Certificate..Finished, then data
+        got = pair.server.session.clientCertChain
+        post['pha'] = bool(before is None and got is not None and w1[2] == data and w2[2] == data)
+    except Exception as e:  # noqa
+        post['pha'] = False
+        post['pha_error'] = '%s: %s' % (type(e).__name__, e)
+    # resumption with the ticket the server sent (PSK binder and ticket PSK under the suite's hash)
+    try:
+        pair2 = loop.Pair()
+        sid = out['sid']
+        # the offer must be cut down BEFORE the PSK binders are computed over the ClientHello
+        import tlslite.handshakehelpers as hhp
+        orig_ub = hhp.HandshakeHelpers.__dict__['update_binders']
+        f_ub = orig_ub.__func__ if isinstance(orig_ub, staticmethod) else orig_ub
+
+        def ub(client_hello, *a, **kw):
+            client_hello.cipher_suites = [x for x in client_hello.cipher_suites if x in (sid, 0x00FF)]
+            return f_ub(client_hello, *a, **kw)
+        hhp.HandshakeHelpers.update_binders = staticmethod(ub)
+        try:
+            ckw2 = dict(ckw)
+            ckw2['session'] = pair.client.session
+            c, s = pair2.handshake(client_kw=ckw2, server_kw=skw, client_kind='cert')
+        finally:
+            hhp.HandshakeHelpers.update_binders = orig_ub
+        w2v = wire_view(records(pair2.csock.sent_log), records(pair2.ssock.sent_log))
+        post['resume'] = {'ok': c[0] == 'ok' and s[0] == 'ok', 'psk': 41 in (w2v.get('sh_exts') or []),
+                          'tickets': len(pair.client.session.tickets or []),
+                          'suite': int(pair2.client.session.cipherSuite) if pair2.client.session else -1,
+                          'outcome': [list(map(str, loop.classify(c))), list(map(str, loop.classify(s)))]}
+        if post['resume']['ok']:
+            w = pair2.transfer(pair2.client, pair2.server, data)
+            post['resume']['flows'] = w[2] == data
+    except Exception as e:  # noqa
+        post['resume'] = {'ok': False, 'error': '%s: %s' % (type(e).__name__, e)}
+    return post
+
+
 def side_view(conn):
     rl = conn._recordLayer
     ws = rl._writeState
@@ -266,6 +435,8 @@ CFGS = ('client-pinned', 'server-pinned')
 def run_case(case):
     """case: dict(sid, ver=(3,x), cfg, seed).  Credentials and handshake kind come from the parsed name."""
     import loop
+    if case.get('words'):
+        return run_word_case(case)
     sid, ver, cfg = case['sid'], tuple(case['ver']), case.get('cfg', 'client-pinned')
     m = iana.meaning(sid)
     rec = recorder()
@@ -307,6 +478,10 @@ def run_case(case):
             name = {'RSA': 'rsa', 'DSS': 'dsa', 'ECDSA': 'ecdsa', 'TLS13': case.get('cred13', 'rsa')}[auth]
             chain, key = loop.creds(name)
             skw.update(certChain=chain, privateKey=key)
+        if ver == (3, 4) and case.get('post', True) and kind == 'cert':
+            ss.ticketKeys = [bytearray(range(32))]
+            cch, ckey = loop.creds('client-rsa')     # a configured client certificate makes the client offer PHA
+            ckw.update(certChain=cch, privateKey=ckey)
         # the client's offer is cut down to the one suite (plus the renegotiation SCSV)
         orig_send = pair.client._sendMsg
 
@@ -343,6 +518,84 @@ def run_case(case):
         out['c2s'] = app_lens(pair.csock.sent_log, nc)
         out['s2c'] = app_lens(pair.ssock.sent_log, ns)
         out['n'] = n_app
+        if ver >= (3, 1):
+            out['exporter'] = exporter_view(pair, ver)
+        if ver == (3, 4) and case.get('post', True) and m is not None:
+            out['post'] = tls13_post(pair, m, data[:64] or b"x", out, skw, cs, ckw)
+            out['hkdf'] = sorted(set(rec.hkdf))
+    except Exception as e:  # noqa
+        import traceback
+        out['error'] = '%s: %s' % (type(e).__name__, e)
+        out['tb'] = traceback.format_exc()[-1500:]
+    finally:
+        rnd.uninstall()
+    return out
+
+
+def run_word_case(case):
+    """No offer cutting: a client restricted by ONE settings word (cipherNames / macNames / keyExchangeNames = [w]),
+    every version allowed on both sides, against an all-permissive server holding `cred`.  Whatever the server
+    answers is judged from the wire; a completed handshake is observed like any other."""
+    import loop
+    field, word = case['words']
+    cred = case.get('cred', 'rsa')
+    rec = recorder()
+    rec.reset()
+    rnd = loop.DetRandom(case.get('seed', 0)).install()
+    out = {'sid': -1, 'ver': -1, 'cfg': 'word:%s=%s/%s' % (field, word, cred), 'ok': False, 'words': [field, word],
+           'cred': cred}
+    try:
+        pair = loop.Pair()
+        cs, ss = permissive((3, 0), (3, 4)), permissive((3, 0), (3, 4))
+        setattr(cs, field, [word])
+        cs.versions = [(3, 4), (3, 3), (3, 2), (3, 1), (3, 0)]
+        ss.versions = [(3, 4), (3, 3), (3, 2), (3, 1), (3, 0)]
+        ss.ticketKeys = [bytearray(range(32))]
+        cch, ckey = loop.creds('client-rsa')
+        ckw, skw, kind = {'settings': cs, 'certChain': cch, 'privateKey': ckey}, {'settings': ss}, 'cert'
+        if cred == 'anon':
+            kind, ckw = 'anon', {'settings': cs}
+            skw['anon'] = True
+        elif cred == 'srp':
+            kind = 'srp'
+            cs.maxVersion = (3, 3)
+            ckw = {'settings': cs, 'username': bytearray(b'test'), 'password': bytearray(b'password')}
+            skw['verifierDB'] = loop.make_verifier_db()
+        else:
+            chain, key = loop.creds(cred)
+            skw.update(certChain=chain, privateKey=key)
+        c, s = pair.handshake(client_kw=ckw, server_kw=skw, client_kind=kind)
+        out['outcome'] = [list(map(str, loop.classify(c))), list(map(str, loop.classify(s)))]
+        try:
+            out['wire'] = wire_view(records(pair.csock.sent_log), records(pair.ssock.sent_log))
+        except Exception as e:  # noqa
+            out['wire'] = None
+            out['wire_error'] = repr(e)
+        if out['wire'] and out['wire']['sh_suite'] >= 0:
+            out['sid'], out['ver'] = out['wire']['sh_suite'], out['wire']['sh_ver']
+        if c[0] != 'ok' or s[0] != 'ok' or not out['wire']:
+            return out
+        out['ok'] = True
+        sid, ver = out['sid'], (3, out['ver'])
+        m = iana.meaning(sid)
+        out['cli'] = side_view(pair.client)
+        out['srv'] = side_view(pair.server)
+        out['fact'] = sorted(set(rec.fact))
+        out['prfs'] = sorted(set(rec.prfs))
+        out['hkdf'] = sorted(set(rec.hkdf))
+        nc, ns = len(records(pair.csock.sent_log)), len(records(pair.ssock.sent_log))
+        data = bytes((i * 7 + sid) & 0xff for i in range(N_APP))
+        w1 = pair.transfer(pair.client, pair.server, data)
+        w2 = pair.transfer(pair.server, pair.client, data)
+        out['app_ok'] = bool(w1[2] == data and w2[2] == data)
+        out['c2s'] = app_lens(pair.csock.sent_log, nc)
+        out['s2c'] = app_lens(pair.ssock.sent_log, ns)
+        out['n'] = N_APP
+        if ver >= (3, 1):
+            out['exporter'] = exporter_view(pair, ver)
+        if ver == (3, 4) and m is not None:
+            out['post'] = tls13_post(pair, m, data[:64], out, skw, cs, ckw)
+            out['hkdf'] = sorted(set(rec.hkdf))
     except Exception as e:  # noqa
         import traceback
         out['error'] = '%s: %s' % (type(e).__name__, e)
